@@ -23,6 +23,7 @@ func init() {
 func checkC03(c *Ctx) {
 	checkC03Table(c)
 	checkC03Destinations(c)
+	checkC03Kinds(c)
 	checkC06Compare(c) // equality of atoms is the scalar case of unification (shared with C06)
 	f := c.fn(adtP, "(*nodeContext).insertValueConjunct")
 	g := c.graph(f)
